@@ -345,3 +345,7 @@ mod tests {
         assert_eq!(res, TryRecvError::Empty);
     }
 }
+
+#[cfg(all(test, pendulum_project_ntpd_rs_verif))]
+#[path = "/verif/harness/ntpd/hook_daemon__spawn__standard.rs"]
+mod verif_hook;
